@@ -148,10 +148,13 @@ func (dss *dataStoreSet) flushDb(dsc *dataStoreCommand, index int) {
 	}
 }
 
-func (dss *dataStoreSet) flushAll(dsc *dataStoreCommand) {
-	// all data store locks are held together, as for the other multi-data store operations
-	multiDataStoreLock.Lock()
-	defer multiDataStoreLock.Unlock()
+func (dss *dataStoreSet) flushAll(dsc *dataStoreCommand, globalHeld bool) {
+	// all data store locks are held together; the global lock that orders operations on several
+	// data stores comes first (EXEC takes it before its own data store when FLUSHALL is queued)
+	if !globalHeld {
+		multiDataStoreLock.Lock()
+		defer multiDataStoreLock.Unlock()
+	}
 
 	dss.mu.Lock()
 	stores := make([]*dataStore, 0, len(dss.dbs))
